@@ -24,6 +24,7 @@ TRUSTED_BASE = [
     "axioms allowed in property theorems: propext, Classical.choice, Quot.sound (audited with #print axioms on every run); no native_decide, no bv_decide, no sorry",
     "hand-written Lean model of lib/*.c, tied to /repo by the correspondence run of this check (C harness built from the working tree with ASan+UBSan vs the compiled Lean driver, same scenarios)",
     "harness/drv.c, vlib/*.py generators and oracles, gen/extract_facts.py (clang AST dump) for the extracted facts",
+    "for the translated string helpers (checks that list LEAF_FNS): gen/c2lean.py (clang AST -> MiniC terms) and the MiniC semantics lean/Econf/MiniC.lean, both validated on every run by running the translated terms and the real C functions (harness/leaf.c, ASan) on the same inputs",
     "gcc 12 AddressSanitizer/UBSan as oracle for memory errors; glibc getline/strtol/printf/scandir/lstat as assumed in DESIGN.md section 3",
 ]
 
@@ -198,15 +199,27 @@ def run_property(mod, tier, seed, replay=None):
     gen = getattr(mod, "generate_facts", None)
     gen_err = []
 
+    leaf_fns = list(getattr(mod, "LEAF_FNS", []))
+    leaf_err = []
+
     def pre():
         if gen:
             try:
                 gen()
             except Exception as e:  # extraction failure = obligation not discharged
                 gen_err.append(repr(e))
+        if leaf_fns:
+            from gen import c2lean
+            try:
+                c2lean.generate()
+            except Exception as e:
+                leaf_err.append(repr(e))
     ok, out = build.lake_build(list(getattr(mod, "LEAN_MODULES", [])) + ["econf_model"], pre=pre)
     if gen:
         res.obligations.append(("facts re-extracted from /repo (gen/extract_facts.py -> Generated/Facts.lean)", not gen_err, "; ".join(gen_err)))
+    if leaf_fns:
+        res.obligations.append(("string helpers re-translated from /repo (gen/c2lean.py -> Generated/LeafFns.lean): " + ", ".join(leaf_fns),
+                                not leaf_err, "; ".join(leaf_err)))
     res.obligations.append(("lake build " + " ".join(getattr(mod, "LEAN_MODULES", [])), ok, "" if ok else out[-1500:]))
     bad = lean_source_audit()
     res.obligations.append(("no sorry/admit/axiom/native_decide in Lean sources", not bad, "; ".join(bad)))
@@ -265,6 +278,12 @@ def run_property(mod, tier, seed, replay=None):
 
     if extra and not replay:
         extra(res, harness, tier, rng)
+    if leaf_fns and model_ok:
+        from checks import leaf
+        if replay:
+            leaf.replay(res, harness, replay)
+        else:
+            leaf.run(res, harness, tier, rng, leaf_fns)
 
     # 4. model/implementation disagreements that the oracle did not classify as violations,
     #    or broken proof obligations: extended search, then report without a failing input
